@@ -35,7 +35,7 @@ ASSUMPTIONS = ['not judged: then-steps naming a state that does not exist, map_a
 THEN_KINDS = ['state entered', 'state not entered', 'state exited', 'state not exited', 'state active', 'state not active',
               'event fired', 'event fired with', 'event fired table', 'event not fired', 'no event fired', 'variable equals',
               'variable not equal', 'expression holds', 'expression not hold', 'final', 'not final']
-REQUIRED_COUNTERS = ['table_reproduce_scenarios', 'long_step_scenarios', 'runs_with_two_feature_files', 'mutable_literal_parameters', 'cross_event_parameter_mix', 'features_with_background', 'given_step_after_when', 'feature_files', 'scenarios', 'then_steps_checked', 'given_when_steps_checked', 'testing_predicate_checks',
+REQUIRED_COUNTERS = ['inline_and_table_parameters', 'mapped_step_scenarios', 'table_reproduce_scenarios', 'long_step_scenarios', 'runs_with_two_feature_files', 'mutable_literal_parameters', 'cross_event_parameter_mix', 'features_with_background', 'given_step_after_when', 'feature_files', 'scenarios', 'then_steps_checked', 'given_when_steps_checked', 'testing_predicate_checks',
                      'blocks_without_macro_step', 'same_event_twice_in_step'] + \
     ['then_%s_%s' % (k.replace(' ', '_'), v) for k in THEN_KINDS for v in ('true', 'false')]
 
@@ -152,8 +152,12 @@ def gen_scenario(rnd, ch, idx, earlier, orc):
             return (kw, 'I send event %s' % ev, None)
         if r < 0.5:
             return (kw, 'I send event %s with p=%d' % (ev, rnd.randint(0, 3)), None)
-        if r < 0.58:
+        if r < 0.54:
             return (kw, 'I send event %s' % ev, [('p', str(rnd.randint(0, 3)))])
+        if r < 0.58:
+            # both forms in one step: one parameter inline, another one in the table
+            orc.acc.count('inline_and_table_parameters')
+            return (kw, 'I send event %s with p=%d' % (ev, rnd.randint(1, 3)), [('q', rnd.choice(('[1, 2]', '[]', '[0]')))])
         if r < 0.66:
             orc.acc.count('mutable_literal_parameters')
             special = rnd.random() < 0.4
@@ -520,9 +524,72 @@ def table_reproduce_case(acc, rnd):
             return
 
 
+MAPPED_CHART = '''statechart:
+  name: mapped
+  preamble: n = 0
+  root state:
+    name: root
+    initial: off
+    states:
+      - name: off
+        transitions:
+          - event: power
+            target: on
+            action: send('beep')
+      - name: on
+        transitions:
+          - event: power
+            target: off
+          - event: beep
+            action: n = n + 1
+'''
+MAPPED_STEPS = '''from sismic.bdd import map_action, map_assertion
+map_action('I press the button', 'I send event power')
+map_assertion('it is switched on', 'state on is active')
+'''
+
+
+def mapped_steps_case(acc, rnd):
+    """User-defined steps declared with the documented map_action / map_assertion helpers: a mapped action used under Given is a
+    given step (what it does is not part of the monitored trace), used under When it is a when step."""
+    ftext = ('Feature: mapped\n\n  Scenario: given\n    Given I press the button\n    When I do nothing\n    Then it is switched on\n'
+             '    And state on is not entered\n    And event beep is not fired\n    And variable n equals 1\n\n  Scenario: when\n'
+             '    When I press the button\n    Then state on is entered\n    And event beep is fired\n    And it is switched on\n\n'
+             '  Scenario: both\n    Given I press the button\n    When I press the button\n    Then state on is exited\n'
+             '    And state on is not entered\n    And event beep is not fired\n')
+    os.makedirs(os.path.join(VERIF_DIR, '.work'), exist_ok=True)
+    d = tempfile.mkdtemp(prefix='c19-', dir=os.path.join(VERIF_DIR, '.work'))
+    try:
+        chart_fp, feat_fp, out_fp, steps_fp = (os.path.join(d, x) for x in ('chart.yaml', 'f.feature', 'out.json', 'mysteps.py'))
+        open(chart_fp, 'w').write(MAPPED_CHART)
+        open(feat_fp, 'w').write(ftext)
+        open(steps_fp, 'w').write(MAPPED_STEPS)
+        code = ("import sys\nsys.path.insert(0, %r)\nfrom sismic.io import import_from_yaml\nfrom sismic.bdd import execute_bdd\n"
+                "sys.exit(execute_bdd(import_from_yaml(filepath=%r), [%r], step_filepaths=[%r], behave_parameters=['-f', 'json', '-o', %r, "
+                "'--no-summary', '-q', '--no-color']))\n" % (REPO, chart_fp, feat_fp, steps_fp, out_fp))
+        try:
+            subprocess.run([PYTHON, '-B', '-c', code], stdout=subprocess.PIPE, stderr=subprocess.PIPE, text=True, timeout=600,
+                           cwd=d, env=dict(os.environ, PYTHONPATH=REPO))
+            rep = json.load(open(out_fp))
+        except Exception as e:      # noqa
+            acc.note_inconclusive('mapped steps case: no report from behave (%s)' % (e,))
+            return
+    finally:
+        shutil.rmtree(d, ignore_errors=True)
+    acc.count('mapped_step_scenarios')
+    for el in [e for e in rep[0]['elements'] if e['type'] == 'scenario']:
+        st = [(x['name'], x.get('result', {}).get('status')) for x in el['steps']]
+        if any(status != 'passed' for _n, status in st):
+            acc.violation('C19:unsound-verdict', 'steps mapped with map_action / map_assertion: scenario %r reported %r; every assertion '
+                          'is true on a plain interpreter executed as documented' % (el['name'], st), dict(feature=ftext))
+            return
+
+
 def run_case(acc, rnd, tier, case):
     if case % 16 == 9:
         return long_run_case(acc, rnd)
+    if case % 16 == 13:
+        return mapped_steps_case(acc, rnd)
     if case % 16 == 3:
         return table_reproduce_case(acc, rnd)
     ch = make_chart(rnd)
